@@ -73,8 +73,30 @@ TRACE_CFG = """CONSTANTS
   HistFrames = {}
   HistBuffers = {}
   HistReads = FALSE
+  MHistFrames = {}
 SPECIFICATION TraceSpec
 POSTCONDITION TraceAccepted
+"""
+
+# the masking-history machine (MaskHistory.tla; the other machines' constants are left empty)
+MHIST_CFG = """CONSTANTS
+  InShapes = {}
+  OutShapes = {}
+  KernelShapes = {}
+  MaskShapes = {}
+  MaskKernels = {}
+  Buffers = {}
+  HalfScales <- MCHalfScales
+  Origins <- MCOrigins
+  HistFrames = {}
+  HistBuffers = {}
+  HistReads = FALSE
+  MHistFrames <- MCMHistFrames
+SPECIFICATION MSpec
+INVARIANT BaseIsAlwaysTheOriginal
+INVARIANT EveryMaskIsAppliedToTheOriginal
+INVARIANT HistoryPreservesOriginalTriples
+INVARIANT HistoryBlurringFits
 """
 
 TICKS = [2.0 ** -6, 0.25, 1.0, 4.0, 0.05, 0.1, 1.0 / 3.0]
@@ -452,12 +474,62 @@ def rec_zoom_history(h, w, u, steps, g, rng):
     return _guard(rec, ok, body)
 
 
+def rec_mask_history(h, w, kh, kw, masks, g, rng):
+    """ds.apply_mask(a1).apply_mask(a2)... on ONE imaging dataset (PSF kh x kw); every mask is given on the original
+    frame.  Every result is recorded: native data / noise sources, mask, and the slim (coordinate, data, noise) triples."""
+    ok = [True]
+    n = h * w
+    tau = g["tau"]
+    rec = _base("mask_history", h, w, list(range(n)), g)
+    rec.update({"kh": kh, "kw": kw, "steps": [{"m": [int(x) for x in m], "raised": True, "payload_ok": True} for m in masks]})
+
+    def observe(d2, st):
+        nat = np.asarray(d2.data.native.array, dtype=float)
+        st["oh"], st["ow"] = int(nat.shape[0]), int(nat.shape[1])
+        st["src_d"] = _src(nat, n)
+        st["src_n"] = _src(np.asarray(d2.noise_map.native.array, dtype=float), n, base=n + 1)
+        st["um"] = _um(d2.mask)
+        st["post_y"], st["post_x"] = _grid_yx(d2.grids.uniform.array, tau, ok)
+        st["post_d"] = _src(np.asarray(d2.data.slim.array, dtype=float), n)
+        st["post_n"] = _src(np.asarray(d2.noise_map.slim.array, dtype=float), n, base=n + 1)
+
+    def body():
+        ds = _imaging(h, w, None, g, _tags(h, w), _tags(h, w, base=n + 1), (kh, kw))
+        rec["gin_y"], rec["gin_x"] = _grid_yx(ds.grids.uniform.native, tau, ok)
+        rd, rn = _reals(rng, h, w), _reals(rng, h, w, positive=True)
+        twin = _imaging(h, w, None, g, rd, rn, (kh, kw))  # the same history on random reals
+        done = []
+        cur, cur_r = ds, twin
+        for m in masks:
+            st = {"m": [int(x) for x in m], "raised": False, "payload_ok": True}
+            try:
+                cur = cur.apply_mask(mask=_mask(h, w, m, g))
+                observe(cur, st)
+                cur_r = cur_r.apply_mask(mask=_mask(h, w, m, g))
+                st["payload_ok"] = (_payload_ok(st["src_d"], rd.ravel(), cur_r.data.native.array)
+                                    and _payload_ok(st["src_n"], rn.ravel(), cur_r.noise_map.native.array)
+                                    and _payload_ok(st["post_d"], rd.ravel(), cur_r.data.slim.array)
+                                    and _payload_ok(st["post_n"], rn.ravel(), cur_r.noise_map.slim.array))
+            except core.MachineryError:
+                raise
+            except Exception as e:  # noqa: BLE001 -- a mask on the original frame is applicable after any history
+                st = {"m": [int(x) for x in m], "raised": True, "payload_ok": True,
+                      "error": f"{type(e).__name__}: {e}"[:300]}
+                done.append(st)
+                break  # nothing to continue from
+            done.append(st)
+        rec["steps"] = done
+
+    return _guard(rec, ok, body)
+
+
 # ------------------------------------------------------------------------------------------------------------
 # instance -> records
 # ------------------------------------------------------------------------------------------------------------
 def _rng_for(inst, seed):
     key = [seed, inst["h"], inst["w"], inst["h2"], inst["w2"], inst["kh"], inst["kw"], inst["b"], len(inst["u"]),
-           sum(inst["u"]) % 9973, {"resize": 1, "kernel": 2, "autopad": 3, "zoom": 4, "history": 5}[inst["kind"]],
+           sum(inst["u"]) % 9973, {"resize": 1, "kernel": 2, "autopad": 3, "zoom": 4, "history": 5, "mask_history": 6}[inst["kind"]],
+           sum((k + 1) * (sum(m) + 31 * len(m)) for k, m in enumerate(inst.get("masks", []))) % 99991,
            sum((k + 1) * (st["cell"] + 7 * st["val"] + 13 * st["b"] + len(st["op"])) for k, st in enumerate(inst.get("steps", []))) % 99991]
     return np.random.default_rng(key)
 
@@ -499,12 +571,14 @@ def records_for(inst, seed=0, full_variants=True):
         out.append(rec_autopad(h, w, inst["u"], inst["kh"], inst["kw"], _geom(rng), rng))
     elif kind == "zoom":
         out.append(rec_zoom(h, w, inst["u"], inst["b"], _geom(rng), rng))
+    elif kind == "mask_history":
+        out.append(rec_mask_history(h, w, inst["kh"], inst["kw"], inst["masks"], _geom(rng), rng))
     elif kind == "history":
         out.append(rec_zoom_history(h, w, inst["u"], inst["steps"], _geom(rng), rng))
     else:
         raise core.MachineryError(f"unknown instance kind {kind}")
     for r in out:
-        r["inst"] = {k: inst[k] for k in ("kind", "h", "w", "u", "h2", "w2", "kh", "kw", "b", "steps") if k in inst}
+        r["inst"] = {k: inst[k] for k in ("kind", "h", "w", "u", "h2", "w2", "kh", "kw", "b", "steps", "masks") if k in inst}
         r["inst"].update({"seed": seed, "full_variants": bool(full_variants)})
     return out
 
@@ -574,6 +648,86 @@ def enumerate_histories(ctx, hist_frames, hist_buffers, hist_reads, tag, timeout
             or any(x["steps"][-1]["op"] != "zoom" for x in hists)):
         raise core.MachineryError(f"ZoomHistory.tla dumped {len(hists)} histories, not covering the frames {hist_frames}")
     return hists
+
+
+def enumerate_mask_histories(ctx, mhist_frames, tag, timeout=2400):
+    """Exhaustive exploration of MaskHistory.tla: every history of `depth` non-empty masks on each small frame.  TLC checks
+    that the base of every masking is the original dataset and that every result shows the original triples of its own
+    mask; the complete histories are returned for replay on one real Imaging dataset."""
+    defs = "\n".join(["MCMHistFrames == {" + ", ".join("<<" + ",".join(str(x) for x in f) + ">>" for f in mhist_frames) + "}",
+                      "MCHalfScales == {1, 3}", "MCOrigins == {-2, 0, 4}"])
+    res = ctx.tlc("MaskHistory", MHIST_CFG, defs=defs, tag=tag, timeout=timeout)
+    if res.init_states != len(mhist_frames):
+        raise core.MachineryError(f"MaskHistory.tla: {res.init_states} initial states, expected {len(mhist_frames)}")
+    seen = set()
+    out = []
+    for r in res.by_kind("mhist"):
+        key = (r["h"], r["w"], r["kh"], r["kw"], tuple(tuple(m) for m in r["masks"]))
+        if key in seen:
+            continue
+        seen.add(key)
+        out.append({"kind": "mask_history", "h": r["h"], "w": r["w"], "u": [], "h2": 1, "w2": 1, "kh": r["kh"], "kw": r["kw"],
+                    "b": len(r["masks"]), "masks": [list(m) for m in r["masks"]]})
+    expect = sum((2 ** (h * w) - 1) ** d for h, w, _, _, d in mhist_frames)
+    if len(out) != expect:
+        raise core.MachineryError(f"MaskHistory.tla dumped {len(out)} complete histories, expected {expect}")
+    return out
+
+
+def random_mask_histories(rng, n, max_side=9):
+    """seeded masking histories beyond the exhaustive frames: 2..4 masks in a row on one dataset -- nested, overlapping,
+    growing (the next mask unmasks what the previous one hid), equal, interior (no padding) and edge-touching (padding)."""
+    out = []
+    for _ in range(n):
+        h, w = int(rng.integers(4, max_side + 1)), int(rng.integers(4, max_side + 1))
+        kh, kw = int(rng.choice([1, 3, 5])), int(rng.choice([1, 3, 5]))
+
+        def box(edge):
+            if edge:
+                y0, x0 = int(rng.integers(0, 2)) * (h - 2), int(rng.integers(0, w - 1))
+            else:
+                y0, x0 = int(rng.integers(kh // 2, max(kh // 2 + 1, h - kh // 2 - 1))), \
+                         int(rng.integers(kw // 2, max(kw // 2 + 1, w - kw // 2 - 1)))
+            m = np.zeros((h, w), dtype=bool)
+            m[y0: y0 + int(rng.integers(1, 3)), x0: x0 + int(rng.integers(1, 3))] = True
+            if not edge:  # keep the blurring region inside the frame
+                m[: kh // 2, :] = False
+                m[h - kh // 2:, :] = False
+                m[:, : kw // 2] = False
+                m[:, w - kw // 2:] = False
+            if not m.any():
+                m[h // 2, w // 2] = True
+            return m
+
+        masks = []
+        prev = None
+        for k in range(int(rng.integers(2, 5))):
+            style = int(rng.integers(0, 6))
+            if prev is None or style == 0:
+                m = box(edge=rng.random() < 0.4)
+            elif style == 1:  # grow: everything the previous mask showed, plus pixels it hid
+                m = prev | box(edge=rng.random() < 0.4)
+            elif style == 2:  # shrink inside the previous mask
+                m = prev & (rng.random((h, w)) < 0.6)
+                if not m.any():
+                    m = prev.copy()
+            elif style == 3:  # equal
+                m = prev.copy()
+            elif style == 4:  # dilate by one pixel (a sweep over mask sizes)
+                m = prev.copy()
+                m[1:, :] |= prev[:-1, :]
+                m[:-1, :] |= prev[1:, :]
+                m[:, 1:] |= prev[:, :-1]
+                m[:, :-1] |= prev[:, 1:]
+            else:  # overlapping box
+                m = box(edge=rng.random() < 0.4)
+                ys, xs = np.where(prev)
+                m[ys[0], xs[0]] = True
+            masks.append([int(x) for x in np.flatnonzero(m.ravel())])
+            prev = m
+        out.append({"kind": "mask_history", "h": h, "w": w, "u": [], "h2": 1, "w2": 1, "kh": kh, "kw": kw, "b": len(masks),
+                    "masks": masks})
+    return out
 
 
 def random_instances(rng, n_resize, n_kernel, n_mask, max_in=12, max_out=15, max_mask_side=9):
@@ -705,6 +859,8 @@ def validate(ctx, records, tag, chunk=1500):
     for rj in rejects:
         rec = records[rj["id"]]
         extra = {k: rec[k] for k in ("h2", "w2", "kh", "kw", "b", "mpad", "pad") if k in rec}
+        if rec["api"] == "mask_history":
+            extra["masks"] = [st["m"] for st in rec["steps"]]
         if rec["api"] == "zoom_history":
             extra["steps"] = [(st["op"], st["cell"], st["val"]) if st["op"] == "edit" else
                               ((st["op"], st["b"]) if st["op"] == "zoom" else (st["op"],)) for st in rec["steps"]]
@@ -728,11 +884,14 @@ def run(ctx):
         mask_kernels = [(3, 3), (1, 3), (5, 3)]
         n_rand = (250, 120, 300)
         hist_frames, hist_buffers, hist_reads, n_rand_hist = [(2, 2, 4), (2, 3, 3)], [0], False, 250
+        mhist_frames, n_rand_mhist = [(1, 4, 1, 3, 3), (2, 3, 1, 3, 2)], 200
     else:
         mask_shapes = _mask_shapes(12, 6)
         mask_kernels = [(3, 3), (1, 3), (5, 3), (3, 5)]
         n_rand = (3000, 1500, 4000)
         hist_frames, hist_buffers, hist_reads, n_rand_hist = [(2, 2, 4), (2, 3, 3), (3, 2, 3), (1, 4, 3), (4, 1, 3)], [0, 1], True, 4000
+        mhist_frames, n_rand_mhist = [(1, 4, 1, 3, 3), (4, 1, 3, 1, 3), (2, 3, 1, 3, 2), (3, 2, 3, 1, 2), (2, 3, 3, 3, 2),
+                                      (2, 2, 3, 3, 3), (1, 5, 1, 3, 3)], 3000
     buffers = [0, 1, 2]
     ctx.bounds = {"resize_input_shapes": "1..6 x 1..6", "resize_target_shapes": "1..8 x 1..8 (every parity combination)",
                   "pad_trim_kernels": kernels, "mask_frames_all_nonempty_masks": mask_shapes,
@@ -740,19 +899,24 @@ def run(ctx):
                   "coordinate_theorems_over": {"half_scales": HALF_SCALES, "origins": [-2, 0, 4]},
                   "histories_on_one_mask_object(frame_h,frame_w,steps)": hist_frames,
                   "history_zoom_buffers": hist_buffers, "history_reads": hist_reads,
+                  "masking_histories_on_one_dataset(frame_h,frame_w,psf_h,psf_w,masks_in_a_row; all non-empty masks)": mhist_frames,
+                  "random_masking_histories": n_rand_mhist,
+                  "random_masking_history_bounds": "frames 4..9 x 4..9, PSF {1,3,5}^2, 2..4 masks in a row",
                   "random_histories": n_rand_hist, "random_history_bounds": "frames <= 12x15, 2..7 steps, buffers 0..3",
                   "random_instances(resize,kernel,mask)": n_rand,
                   "random_bounds": "inputs <= 12x12, targets <= 15x15, kernels <= 11x11, masks <= 9x9, buffers <= 3",
                   "tick_lengths": TICKS}
     import concurrent.futures as cf
 
-    with cf.ThreadPoolExecutor(max_workers=2) as ex:  # the two bounded machines are explored side by side
+    with cf.ThreadPoolExecutor(max_workers=3) as ex:  # the three bounded machines are explored side by side
         f1 = ex.submit(enumerate_instances, ctx, in_shapes, out_shapes, kernels, mask_shapes, mask_kernels, buffers, "MC_Resize")
         f2 = ex.submit(enumerate_histories, ctx, hist_frames, hist_buffers, hist_reads, "MC_ZoomHistory")
-        insts = f1.result() + f2.result()
+        f3 = ex.submit(enumerate_mask_histories, ctx, mhist_frames, "MC_MaskHistory")
+        insts = f1.result() + f2.result() + f3.result()
     ctx.exhaustive = True
     rnd = random_instances(np.random.default_rng(ctx.seed), *n_rand)
     rnd += random_histories(np.random.default_rng([ctx.seed, 14]), n_rand_hist)
+    rnd += random_mask_histories(np.random.default_rng([ctx.seed, 1410]), n_rand_mhist)
     allinst = insts + rnd
     groups = [(allinst[k: k + 40], ctx.seed, not quick) for k in range(0, len(allinst), 40)]
     recs = []
@@ -760,7 +924,7 @@ def run(ctx):
         recs.extend(part)
     ctx.replayed = len(insts)
     pick = lambda api: next((r for r in recs if r["api"] == api and r["h"] * r["w"] <= 12), None)
-    for api in ("resize_array", "autopad", "zoom", "zoom_history"):
+    for api in ("resize_array", "autopad", "zoom", "zoom_history", "mask_history"):
         r = pick(api)
         if r:
             ctx.sample({k: v for k, v in r.items() if k != "inst"})
@@ -778,6 +942,8 @@ def run(ctx):
         "abstracted to a tick lattice; off-lattice values are rejected, not rounded",
         "a parity-changing resize may take either of the two centred offsets; coordinates are judged only when parity is preserved",
         "zoom is judged on window content only (its coordinate origin belongs to C12)",
+        "masking histories: ds.apply_mask(a1).apply_mask(a2)... on one Imaging dataset, every mask given on the original frame; "
+        "each result is judged against the ORIGINAL unmasked data (its own mask only), as a single automatic padding would be",
         "histories: one Mask2D object is zoomed (through a new Array2D per zoom), edited in place with mask[y,x]=bool, read "
         "(zoom_shape_native) and zoomed again; every zoom is judged against the mask current at that time",
         "Mask2D.trimmed_array_from is judged for parity-preserving pads (its only use: odd kernels)",
